@@ -312,6 +312,9 @@ def compare(w, form, exp_groups, prefix):
 def sig_of(form, legacy, fail, sched):
     """Divergence signature: form, subsystem, kind of the first divergence, settled or burst schedule."""
     mode = "burst" if any(k is not None for k in sched) else "settled"
+    if fail["kind"] == "cross-decorator-order":
+        # one root cause whatever the form: every decorator has its own trigger task
+        return f"*|{'legacy' if legacy else 'new'}|cross-decorator-order|{mode}"
     return f"{form[0]}|{'legacy' if legacy else 'new'}|{fail['kind']}|{mode}"
 
 
